@@ -525,8 +525,11 @@ impl FixtureDatabase {
                     }
                 }
 
-                // Then add fixtures imported into the conftest
-                if self.file_cache.contains_key(&conftest_path) {
+                // Then add fixtures imported into the conftest.
+                // Check both filesystem and file cache for conftest existence, like
+                // find_closest_definition_with_filter: a conftest that is on disk but no longer
+                // cached (document closed, cache evicted) still provides its imports.
+                if self.file_cache.contains_key(&conftest_path) || conftest_path.exists() {
                     let mut visited = HashSet::new();
                     let imported_fixtures =
                         self.get_imported_fixtures(&conftest_path, &mut visited);
